@@ -157,10 +157,15 @@ func runDIFFENTRY(c *Ctx) {
 							why = "the step function's stop sentinel"
 						}
 					}
-					// !keepGoing: result #0 of a call through a callback parameter
+					// !keepGoing: result #0 of a call through a callback parameter — or of a reporting helper of the
+					// repository that makes such a call (dc.report(...) (keepGoing, error))
 					if ex, ok := cond.(*ssa.Extract); ok && ex.Index == 0 && !f.Truth {
-						if call, ok := ex.Tuple.(*ssa.Call); ok && ir.Callee(call.Call) == nil && !call.Call.IsInvoke() {
-							why = "a callback's answer 'stop'"
+						if call, ok := ex.Tuple.(*ssa.Call); ok {
+							if ir.Callee(call.Call) == nil && !call.Call.IsInvoke() {
+								why = "a callback's answer 'stop'"
+							} else if h := ir.Callee(call.Call); h != nil && h.Blocks != nil && isOwn(P, h) && callsACallback(c, h, 0) {
+								why = "a callback's answer 'stop' (handed on by " + h.Name() + ")"
+							}
 						}
 					}
 					if call, ok := cond.(*ssa.Call); ok && !f.Truth && ir.Callee(call.Call) == nil && !call.Call.IsInvoke() {
@@ -258,4 +263,28 @@ func runDIFFENTRY(c *Ctx) {
 			}
 		}
 	}
+}
+
+// callsACallback: h (or a repository function it calls, two levels down) calls through a function value.
+func callsACallback(c *Ctx, h *ssa.Function, d int) bool {
+	if h == nil || h.Blocks == nil || d > 2 {
+		return false
+	}
+	for _, ci := range CallsOf(h) {
+		com := ci.Common()
+		if com.IsInvoke() {
+			continue
+		}
+		if _, isB := com.Value.(*ssa.Builtin); isB {
+			continue
+		}
+		g := ir.Callee(com)
+		if g == nil {
+			return true
+		}
+		if isOwn(c.P, g) && callsACallback(c, g, d+1) {
+			return true
+		}
+	}
+	return false
 }
